@@ -32,10 +32,60 @@ func (c *ctx) ref() {
 		if c.p.Scen.Clients[i].Real {
 			continue
 		}
-		c.refConn(d, i)
+		di, ok := c.docIndexFor(i + 1)
+		if !ok {
+			c.r.Probes["band:reload-in-flight"]++
+			continue
+		}
+		dd := c.p.Scen.Docs[di]
+		dd.Normalize()
+		if di > 0 {
+			c.r.Probes["conn-after-reload"]++
+		}
+		c.refConn(dd, i)
 	}
 	c.oneReplyPerRequest()
 	c.secretsInLogs(d)
+}
+
+// docIndexFor returns the index of the configuration document in force when the
+// connection was admitted; ok=false when a reload was in flight at that moment (the
+// statement allows either configuration then, but not a mixture - that is C15's clause).
+func (c *ctx) docIndexFor(conn int) (int, bool) {
+	inForce := 0
+	var flight []int
+	began := false
+	for _, e := range c.r.Events {
+		switch {
+		case e.Kind == "publish":
+			flight = append(flight, int(e.A))
+		case e.Kind == "publish-done" && e.S != "":
+			// rejected by the loader front end: never reaches the server
+			for k, f := range flight {
+				if f == int(e.A) {
+					flight = append(flight[:k:k], flight[k+1:]...)
+					break
+				}
+			}
+		case e.Kind == "log" && strings.Contains(e.S, "updated all prefix filters"):
+			if len(flight) > 0 {
+				inForce = flight[0]
+				flight = flight[1:]
+			}
+		case e.Kind == "get-begin" && e.Conn == conn:
+			began = true
+			if len(flight) > 0 {
+				return 0, false
+			}
+		case e.Kind == "get-end" && e.Conn == conn:
+			if len(flight) > 0 {
+				return 0, false
+			}
+			return inForce, true
+		}
+	}
+	_ = began
+	return inForce, true
 }
 
 type winfo struct {
@@ -98,7 +148,7 @@ func (c *ctx) refConn(d model.Doc, i int) {
 	}
 	adm, preds, complete := plan.PredictRef(d, cs)
 	replies := c.r.Replies[id]
-	reloaded := c.published()
+	reloaded := false
 
 	// ---- admission (C13)
 	if adm.Band != "" {
